@@ -107,8 +107,6 @@ def leg_c(ctx, rng, n):
                 fill = np.float64(fill)
             d = np.where(rng.random(size=shp) < 0.15, np.nan, d).astype(dt)
         fmt = str(rng.choice(["coo", "coo", "gcxs"]))
-        if fmt == "gcxs" and len(shp) == 0 and rng.random() < 0.9:
-            fmt = "coo"  # 0-d GCXS reductions are a known finding; keep them rare
         x, fdesc = gen.to_format(rng, d, fmt, fill)
         axes = rand_axes(rng, len(shp), allow_bad=0.05)
         ax = None if axes is None else (axes[0] if len(axes) == 1 and rng.random() < 0.5 else tuple(axes))
